@@ -1,6 +1,7 @@
 package main
 
 import (
+	"go/token"
 	"fmt"
 	"go/types"
 	"strings"
@@ -59,6 +60,25 @@ func (c *FnCtx) frameEnv(p *Path, fr *frame, at *ssa.BasicBlock) map[string]Val 
 							if v, ok := fr.regs[ia.X]; ok {
 								env["ranged"] = v
 							}
+						}
+					}
+				}
+			}
+		}
+	}
+	// a counting loop `for i := 0; i < len(x); i++` is the same traversal as `for _, v := range x`: contracts
+	// written for the range form (rangeindex = index of the last completed iteration, ranged = x) keep binding
+	// when the loop is rewritten in the index form, with rangeindex = i - 1
+	if at != nil {
+		if _, has := env["rangeindex"]; !has {
+			if iv, x := countingLoop(at); iv != nil {
+				if v, ok := fr.regs[iv]; ok && v.K == KInt {
+					ri := v
+					ri.T = "(- " + v.T + " 1)"
+					env["rangeindex"] = ri
+					if xv, ok := fr.regs[x]; ok {
+						if _, dup := env["ranged"]; !dup {
+							env["ranged"] = xv
 						}
 					}
 				}
@@ -141,6 +161,10 @@ func (c *FnCtx) atLoopHead(p *Path, b *ssa.BasicBlock, li *loopInfoT) bool {
 		if ph.Comment == "rangeindex" {
 			// the index of a range loop starts at -1 and only ever grows by one (shape of the SSA lowering)
 			p.assume("(>= " + v.T + " (- 1))")
+		}
+		if iv, _ := countingLoop(b); iv == ph {
+			// i = phi(0, i+1) guarded by i < len(x): never negative, never wraps
+			p.assume("(>= " + v.T + " 0)")
 		}
 		fr.regs[ph] = v
 	}
@@ -558,4 +582,47 @@ func typeAsMap(t types.Type) (*types.Map, bool) {
 	}
 	m, ok := t.Underlying().(*types.Map)
 	return m, ok
+}
+
+// countingLoop recognises a loop header of the shape  i = phi(0, i+1); if i < len(x) {body} else {exit}
+// and returns the induction variable and x.
+func countingLoop(h *ssa.BasicBlock) (*ssa.Phi, ssa.Value) {
+	var cond ssa.Value
+	if n := len(h.Instrs); n > 0 {
+		if br, ok := h.Instrs[n-1].(*ssa.If); ok {
+			cond = br.Cond
+		}
+	}
+	cmp, ok := cond.(*ssa.BinOp)
+	if !ok || cmp.Op != token.LSS {
+		return nil, nil
+	}
+	ph, ok := cmp.X.(*ssa.Phi)
+	if !ok || ph.Block() != h || len(ph.Edges) != 2 {
+		return nil, nil
+	}
+	zero, step := false, false
+	for _, e := range ph.Edges {
+		switch x := e.(type) {
+		case *ssa.Const:
+			if x.Value != nil && x.Value.ExactString() == "0" {
+				zero = true
+			}
+		case *ssa.BinOp:
+			if k, isK := x.Y.(*ssa.Const); x.Op == token.ADD && x.X == ph && isK && k.Value != nil && k.Value.ExactString() == "1" {
+				step = true
+			}
+		}
+	}
+	if !zero || !step {
+		return nil, nil
+	}
+	call, ok := cmp.Y.(*ssa.Call)
+	if !ok {
+		return nil, nil
+	}
+	if b, isB := call.Call.Value.(*ssa.Builtin); !isB || b.Name() != "len" || len(call.Call.Args) != 1 {
+		return nil, nil
+	}
+	return ph, call.Call.Args[0]
 }
